@@ -195,3 +195,52 @@ func H_C04_graph() {
 	vAssert("type", ok && dec != nil)
 	checkGraph(root, dec, 3)
 }
+
+type ZShare struct {
+	A []int32
+	B []int32
+	C []int32
+	M map[string]int32
+	N map[string]int32
+	Z int32
+}
+
+// H_C04_shared_containers: the same slice or map in two fields, slices that are prefixes of one another or share
+// a backing array (an empty slice with spare capacity in front of a longer one): every field comes back with its
+// own contents, whatever the encoder decides to send as a back-reference.
+func H_C04_shared_containers() {
+	x := vInt32("x")
+	arr := []int32{x, 2, 3, 4}
+	m := map[string]int32{"k": x}
+	v := &ZShare{Z: 9}
+	switch vChoice("shape", 7) {
+	case 0:
+		v.A, v.B = arr, arr
+	case 1:
+		v.A, v.B = arr[:1], arr[:3]
+	case 2:
+		v.A, v.B = arr[:3], arr[:1]
+	case 3:
+		v.A, v.B, v.C = arr[:0], arr[:2], arr[1:3]
+	case 4:
+		v.M, v.N = m, m
+	case 5:
+		v.A, v.B, v.C = arr, arr[2:], arr
+	case 6:
+		v.A, v.C = make([]int32, 0, 4), []int32{}
+		v.B = v.A[:2]
+		v.B[0], v.B[1] = x, 7
+	}
+	typMap, nameMap := vExtract(v)
+	bs, err := ToBytes(v, nameMap)
+	vAssert("encode-noerr", err == nil)
+	out, err := ToObject(bs, typMap)
+	vAssert("decode-noerr", err == nil)
+	g, ok := out.(*ZShare)
+	vAssert("type", ok && g.Z == 9)
+	vAssert("a", eqInt32s(g.A, v.A))
+	vAssert("b", eqInt32s(g.B, v.B))
+	vAssert("c", eqInt32s(g.C, v.C))
+	vAssert("m", len(g.M) == len(v.M) && g.M["k"] == v.M["k"])
+	vAssert("n", len(g.N) == len(v.N) && g.N["k"] == v.N["k"])
+}
